@@ -31,6 +31,20 @@ Theorem C04_skeleton_is_the_code :
 Proof. vm_compute. repeat split; reflexivity. Qed.
 Print Assumptions C04_skeleton_is_the_code.
 
+(* Opening a handle is a session of its own: on every configuration (file exists?, overwrite?, readonly?) the real
+   constructor creates / re-creates the library file only with the inter-process write lock held and, unless
+   overwrite was requested, only after having looked for the file INSIDE that lock hold; a missing library is
+   created, an existing one is re-created iff overwrite; the lock is released at the end. *)
+Theorem C04_constructor_critical_section : ctor_table_ok ctor_rows = true.
+Proof. vm_compute. reflexivity. Qed.
+Print Assumptions C04_constructor_critical_section.
+
+(* why the look must be inside the lock: the same creation with the look taken before the lock is rejected *)
+Example C04_stale_look_refuted :
+  ctor_scan false false false ["exists"; "acquire"; "create"; "release"] = false /\
+  ctor_scan false false false ["acquire"; "exists"; "create"; "release"] = true.
+Proof. vm_compute. split; reflexivity. Qed.
+
 (* ---- any number of processes, handles and sessions, in any interleaving ---- *)
 (* One transition of the lock/process system: the UKV operation it performs is allowed by the session
    discipline assumed in C02 (so the lock is what establishes that assumption), and the invariant
